@@ -69,16 +69,7 @@ def OpOk : Op → Prop
   | .create sender _ _ _ _ _ _ => sender ≠ escrow
   | _ => True
 
-/-- the class excluded from the escrow *identity* (finding F-htlc-self-recipient): a contract whose
-recipient is the htlc module account itself -/
-def SelfRecipient : Op → Prop
-  | .create _ to _ _ _ _ _ => to = escrow
-  | _ => False
-
-instance : DecidablePred SelfRecipient := fun op => by
-  cases op <;> simp only [SelfRecipient] <;> exact inferInstance
-
-/-- no stored contract pays to the escrow -/
+/-- no stored contract pays to the escrow account itself (`CreateHTLC` rejects such a recipient) -/
 def NoSelf (s : State) : Prop := ∀ id c, AMap.get? s.htlcs id = some c → c.to ≠ escrow
 
 /-! ### monitor (Bool) -/
@@ -98,15 +89,10 @@ def strandedAmt (d : Denom) (c : Contract) : Nat :=
 /-- Σ over completed contracts that paid into the escrow itself -/
 def strandedSum (s : State) (d : Denom) : Nat := AMap.sumBy (strandedAmt d) s.htlcs
 
-/-- the escrow identity as the code really maintains it: escrow = open contracts + the amounts
-stranded by completed contracts whose recipient was the escrow account itself -/
+/-- auxiliary form used inside the proofs: escrow = open contracts + the amounts of completed
+contracts whose recipient is the escrow account itself (there are none: `NoSelf`) -/
 def EscrowExact (s : State) : Prop :=
   ∀ d, Bank.balOf s.bank escrow d = openEscrow s d + strandedSum s d
-
-/-- the identity up to exactly the self-recipient amounts (class F-htlc-self-recipient) -/
-def escrowEqModSelfB (s : State) : Bool :=
-  (denomsOf s).all fun d =>
-    Bank.balOf s.bank escrow d == openEscrow s d + strandedSum s d
 
 def countersB (s : State) : Bool :=
   (denomsOf s).all fun d =>
